@@ -12,17 +12,16 @@ import (
 // server-side deadline it has to beat, even when each of its (at most 3) transactions needs all 7
 // transmissions. Composition argument in DESIGN.md (C14).
 //
-//verif:props=C14 bounds="allocation lifetimes 75 s .. 1 h (what the server grants); RTO = the client default; scheduling jitter 1 s; server defaults for permission/channel timeouts"
+//verif:props=C14 replay=model bounds="allocation lifetimes 75 s .. 1 h (what the server grants); RTO = the client default; scheduling jitter 1 s; server defaults for permission/channel timeouts"
 func VerifHarness_C14_schedule_lemma() {
 	// worst-case duration of one transaction: sum of the 7 intervals
+	// (measured on a real Transaction: the interval each of the 7 timers is armed with)
 	var ttx time.Duration
-	iv := time.Duration(defaultRTO)
+	tr := client.NewTransaction(&client.TransactionConfig{Key: "k", Interval: time.Duration(defaultRTO)})
 	for k := 0; k < maxRtxCount; k++ {
-		ttx += iv
-		iv *= 2
-		if iv > client.VMaxRtxInterval() {
-			iv = client.VMaxRtxInterval()
-		}
+		tr.StartRtxTimer(func(string, int) {})
+		ttx += vTimerDur(tr.VTimer())
+		vFire(tr.VTimer())
 	}
 	round := time.Duration(client.VMaxRetryAttempts()) * ttx
 	const jitter = time.Second
